@@ -44,7 +44,8 @@ package template
 // its record list, mock.lockM the lock protecting that list.
 //
 //@ schema any no-runtime-panic {C04,C19} no nil dereference, index or slice-bounds failure for any state of the mock, the zero value included
-//@ schema any no-loops {C03,C06} emitted functions are loop free
+//@ schema any no-loops {C03,C04,C05,C06,C07,C08} emitted functions are loop free
+//@ schema any within-verified-subset {C03,C04,C05,C06,C07,C08} emitted functions use only the constructs the schema covers (no copy, delete, channel operations, ...)
 //@ schema any no-go-defer-recover {C03,C06} no go, defer, recover, select, send: the user function runs on the caller's goroutine and its panic propagates unchanged
 //@ schema any perm-load {C05} every read of mock.calls.M happens while lockM is held (shared or exclusive)
 //@ schema any perm-store {C05} every write of mock.calls.M happens while lockM is held exclusively
